@@ -4,7 +4,6 @@
     Atoms print their identity only (their content lives in the evaluator state). *)
 From Lisp Require Export Value Wire.
 
-Definition RAWQ : N := 172%N.   (* ¬ *)
 Definition LGUIL : N := 171%N.  (* « *)
 Definition RGUIL : N := 187%N.  (* » *)
 
